@@ -3,7 +3,7 @@ sys.path.insert(0, os.path.dirname(os.path.abspath(__file__)))
 from common import *
 PROPERTY = 'C09'
 def w3c(length):
-    return dict(src='c09_w3c.cc', defines=['LEN=%d' % length], overrides=TS_OVERRIDES, models=TS_MODELS + ['libc.c', 'cxxrt.c'],
+    return dict(src='c09_w3c.cc', defines=['LEN=%d' % length], overrides=TS_OVERRIDES + [SP_RELEASE], models=TS_MODELS + ['libc.c', 'cxxrt.c', SP_LEAK_MODEL],
                 gen_models=gen_regex_tables)
 HARNESSES = {'c09_leaf': dict(src='c09_leaf.cc')}
 QUERIES = [
